@@ -25,6 +25,7 @@ type Env struct {
 	loopPre *State
 	phiSub  map[*ssa.Phi]*SVal
 	at      *ssa.BasicBlock
+	atIdx   int // instruction index inside 'at' up to which definitions count (-1/0: phis only)
 	reach   string
 	depth   int
 	// quantifier handling
@@ -252,7 +253,7 @@ func (e *Env) ident(name string) *SVal {
 		return &SVal{T: types.Typ[types.UntypedNil], K: KPtr, Term: bv64(0)}
 	}
 	if e.f != nil {
-		if v := e.f.resolveLocal(name, e.at, e.phiSub); v != nil {
+		if v := e.f.resolveLocal(name, e.at, e.atIdx, e.phiSub); v != nil {
 			return v
 		}
 	}
@@ -443,7 +444,7 @@ func (e *Env) sel(x *ESel) *SVal {
 	// package-qualified name?
 	if id, ok := x.X.(*EIdent); ok {
 		if _, isVar := e.vars[id.Name]; !isVar {
-			isLocal := e.f != nil && e.f.resolveLocal(id.Name, e.at, e.phiSub) != nil
+			isLocal := e.f != nil && e.f.resolveLocal(id.Name, e.at, e.atIdx, e.phiSub) != nil
 			if !isLocal && (e.pkg == nil || e.pkg.Scope().Lookup(id.Name) == nil) {
 				if p := e.findPkg(id.Name); p != nil {
 					o := p.Scope().Lookup(x.Name)
@@ -1028,7 +1029,20 @@ func (e *Env) callGo(fn *ssa.Function, args []*SVal) *SVal {
 		saveCtr[k] = v
 	}
 	g.specMode++
-	r := fr.inlineCall(fn, args, nil, token.NoPos)
+	var rt types.Type
+	switch fn.Signature.Results().Len() {
+	case 0:
+	case 1:
+		rt = fn.Signature.Results().At(0).Type()
+	default:
+		rt = fn.Signature.Results()
+	}
+	var r *SVal
+	if m := models[funcKey(fn)]; m != nil {
+		r = m(fr, args, rt, token.NoPos)
+	} else {
+		r = fr.inlineCall(fn, args, nil, token.NoPos)
+	}
 	g.specMode--
 	g.Obls = g.Obls[:saveObl]
 	g.kindCtr = saveCtr
@@ -1262,7 +1276,7 @@ func (g *Gen) assumeLocInv(st *State, reach string, it *modItem) {
 }
 
 // resolveLocal maps a source-level local variable name to its SSA value at block 'at'.
-func (f *Frame) resolveLocal(name string, at *ssa.BasicBlock, phiSub map[*ssa.Phi]*SVal) *SVal {
+func (f *Frame) resolveLocal(name string, at *ssa.BasicBlock, atIdx int, phiSub map[*ssa.Phi]*SVal) *SVal {
 	if f.fn == nil {
 		return nil
 	}
@@ -1295,7 +1309,7 @@ func (f *Frame) resolveLocal(name string, at *ssa.BasicBlock, phiSub map[*ssa.Ph
 	bestIdx := -1
 	consider := func(v ssa.Value, b *ssa.BasicBlock, idx int) {
 		_, isPhi := v.(*ssa.Phi)
-		valid := b != at && b.Dominates(at) || b == at && isPhi
+		valid := b != at && b.Dominates(at) || b == at && (isPhi || idx < atIdx)
 		if !valid {
 			return
 		}
